@@ -109,6 +109,14 @@ mod imp {
             }
             for b in bufs {
                 let len = b.bytes.len();
+                if let Place::Over(j) = b.place {
+                    // shares the memory of buffer j, which keeps its own
+                    // bytes until a Refill
+                    let (p, plen, _) = self.placed[j];
+                    assert!(len <= plen, "Place::Over target too short");
+                    self.placed.push((p, len, usize::MAX));
+                    continue;
+                }
                 if len <= DATA_PAGES * PAGE - 128 && next_region < POOL {
                     let r = next_region;
                     next_region += 1;
@@ -118,6 +126,7 @@ mod imp {
                             Place::Left => data,
                             Place::Right => data.add(DATA_PAGES * PAGE - len),
                             Place::Mid(k) => data.add(64 + (k as usize % 64)),
+                            Place::Over(_) => unreachable!(),
                         };
                         // (re)initialise what surrounds the buffer: a fixed halo,
                         // so that a moderate over-read sees episode-determined
@@ -163,6 +172,7 @@ mod imp {
                             Place::Left => data,
                             Place::Right => data.add(pages * PAGE - len),
                             Place::Mid(k) => data.add(64 + (k as usize % 64)),
+                            Place::Over(_) => unreachable!(),
                         };
                         core::ptr::copy_nonoverlapping(b.bytes.as_ptr(), p, len);
                         self.big.push(Big { base, len: total });
@@ -177,6 +187,13 @@ mod imp {
         pub fn slice(&self, i: usize) -> &'static [u8] {
             let (p, len, _) = self.placed[i];
             unsafe { core::slice::from_raw_parts(p, len) }
+        }
+
+        /// The caller overwrites the memory of buffer `i` with `bytes`.
+        pub fn refill(&mut self, i: usize, bytes: &[u8]) {
+            let (p, len, _) = self.placed[i];
+            assert!(bytes.len() == len);
+            unsafe { core::ptr::copy_nonoverlapping(bytes.as_ptr(), p as *mut u8, len) }
         }
 
         /// The caller frees buffer `i`: its pages become inaccessible.
@@ -207,6 +224,11 @@ mod imp {
 mod imp {
     use super::*;
 
+    extern "Rust" {
+        fn miri_alloc(size: usize, align: usize) -> *mut u8;
+        fn miri_dealloc(ptr: *mut u8, size: usize, align: usize);
+    }
+
     pub struct Arena {
         /// raw boxes (null once killed); raw so that handing out slices does
         /// not conflict with Box's uniqueness
@@ -228,7 +250,11 @@ mod imp {
         }
         fn free(p: *mut u8, len: usize) {
             unsafe {
-                drop(Box::from_raw(core::ptr::slice_from_raw_parts_mut(p, len)));
+                if len == 0 {
+                    drop(Box::from_raw(core::ptr::slice_from_raw_parts_mut(p, len)));
+                } else {
+                    miri_dealloc(p, len, 1);
+                }
             }
         }
         pub fn load(&mut self, bufs: &[Buf], _poison: u8) {
@@ -239,11 +265,30 @@ mod imp {
             }
             self.ptrs.clear();
             for b in bufs {
-                let bx: Box<[u8]> = b.bytes.clone().into_boxed_slice();
-                let len = bx.len();
-                let raw = Box::into_raw(bx) as *mut u8;
-                self.ptrs.push((raw, len, true));
+                let len = b.bytes.len();
+                if len == 0 {
+                    let bx: Box<[u8]> = Vec::new().into_boxed_slice();
+                    self.ptrs.push((Box::into_raw(bx) as *mut u8, 0, true));
+                    continue;
+                }
+                // The interpreter's own allocation primitive, not the global
+                // allocator: that one ends in the `malloc` shim, whose blocks
+                // are 16-byte aligned, and a haystack that always starts on a
+                // 16-byte boundary hides every over-read in front of an
+                // unaligned start (seeded change C05-L). These blocks have
+                // alignment 1 and an address drawn from the interpreter's
+                // seeded generator.
+                unsafe {
+                    let raw = miri_alloc(len, 1);
+                    core::ptr::copy_nonoverlapping(b.bytes.as_ptr(), raw, len);
+                    self.ptrs.push((raw, len, true));
+                }
             }
+        }
+        pub fn refill(&mut self, i: usize, bytes: &[u8]) {
+            let (p, len, _) = self.ptrs[i];
+            assert!(bytes.len() == len);
+            unsafe { core::ptr::copy_nonoverlapping(bytes.as_ptr(), p, len) }
         }
         pub fn slice(&self, i: usize) -> &'static [u8] {
             let (p, len, _) = self.ptrs[i];
@@ -275,3 +320,49 @@ mod imp {
 }
 
 pub use imp::Arena;
+
+/// A multi-GiB zero-filled mapping (untouched pages cost no memory) with a few
+/// bytes written. Native only.
+#[cfg(not(miri))]
+pub struct Huge {
+    base: *mut u8,
+    total: usize,
+    pub len: usize,
+}
+
+#[cfg(not(miri))]
+impl Huge {
+    pub fn new(len: usize) -> Option<Huge> {
+        unsafe {
+            let total = len + 2 * PAGE;
+            let base = libc::mmap(
+                core::ptr::null_mut(),
+                total,
+                libc::PROT_READ | libc::PROT_WRITE,
+                libc::MAP_PRIVATE | libc::MAP_ANONYMOUS | libc::MAP_NORESERVE,
+                -1,
+                0,
+            );
+            if base == libc::MAP_FAILED {
+                return None;
+            }
+            Some(Huge { base: base as *mut u8, total, len })
+        }
+    }
+    pub fn write(&mut self, at: usize, bytes: &[u8]) {
+        assert!(at + bytes.len() <= self.len);
+        unsafe { core::ptr::copy_nonoverlapping(bytes.as_ptr(), self.base.add(PAGE + at), bytes.len()) }
+    }
+    pub fn slice(&self) -> &'static [u8] {
+        unsafe { core::slice::from_raw_parts(self.base.add(PAGE), self.len) }
+    }
+}
+
+#[cfg(not(miri))]
+impl Drop for Huge {
+    fn drop(&mut self) {
+        unsafe {
+            libc::munmap(self.base as *mut libc::c_void, self.total);
+        }
+    }
+}
